@@ -218,7 +218,13 @@ static int real_main(int argc, char** argv)
         if (selfcheck > 0 && (idx / nworkers) % selfcheck == 0)
         {
             RunOutput again = run_plan(p, ro);
-            if (again.event_hash != out.event_hash || again.viol.size() != out.viol.size())
+            // (a data race on once-only state cannot recur in the same process: that class is excluded from the comparison)
+            auto recurring = [](const RunOutput& r) {
+                size_t k = 0;
+                for (auto& v : r.viol) k += (v.cls() != "C20:data-race");
+                return k;
+            };
+            if (again.event_hash != out.event_hash || recurring(again) != recurring(out))
             {
                 engine_errors++;
                 std::printf("{\"type\":\"engine_error\",\"index\":%ld,\"msg\":\"nondeterministic re-execution (hash %llu vs %llu)\"}\n", idx,
